@@ -108,6 +108,11 @@ MUTATIONS = [
     ("dask_expr/_core.py", "        return type(self), tuple(self.operands)\n", "        return type(self), tuple(self.operands[:-1])\n", "vf.contracts.serialize:ExprReduce", "post:class-and-all-operands-in-order"),
     ("dask_expr/_core.py", "        if dask.config.get(\"dask-expr-no-serialize\", False):\n            raise RuntimeError(f\"Serializing a {type(self)} object\")\n        return type(self), tuple(self.operands)", "        if dask.config.get(\"dask-expr-no-serialize\", False):\n            pass\n        return type(self), tuple(self.operands)", "vf.contracts.serialize:ExprReduce", "post:never-returns-when"),
     ("dask_expr/_util.py", "        return type(self), (self._data,)\n", "        return type(self), (self._data, self._division_info)\n", "vf.contracts.serialize:BackendDataReduce", "post:only-the-data"),
+    # the planner's cache data structure (C15)
+    ("dask_expr/_util.py", "        if len(self) >= self.maxsize:\n", "        if len(self) > self.maxsize:\n", "vf.contracts.caches:LRUSetItem", "post:size-bound"),
+    ("dask_expr/_util.py", "        if len(self) >= self.maxsize:\n", "        if len(self) >= self.maxsize - 1:\n", "vf.contracts.caches:LRUSetItem", "post:only-the-least-recently-used-key-is-evicted"),
+    ("dask_expr/_util.py", "        cast(OrderedDict, self.data).move_to_end(key)\n        return value", "        return value", "vf.contracts.caches:LRUGetItem", "post:key-becomes-most-recently-used"),
+    ("dask_expr/_util.py", "        super().__setitem__(key, value)\n\n\nclass _BackendData", "        super().__setitem__(key, value)\n        cast(OrderedDict, self.data).move_to_end(key, last=True) if False else None\n\n\nclass _BackendData", "vf.contracts.caches:LRUSetItem", "HARMLESS-OR-UNDECIDED"),
     # harmless edits: renamed local, reordered independent statements, extra statement
     ("dask_expr/_expr.py", "        new_divisions = []\n        for part in self._partitions:\n            new_divisions.append(full_divisions[part])\n        new_divisions.append(full_divisions[part + 1])\n        return tuple(new_divisions)", "        picked = []\n        for part in self._partitions:\n            picked.append(full_divisions[part])\n        picked.append(full_divisions[part + 1])\n        return tuple(picked)", "vf.contracts.partitions:PFDivisions", None),
     ("dask_expr/_repartition.py", "        npartitions = self.new_partitions\n        npartitions_input = self.frame.npartitions\n", "        npartitions_input = self.frame.npartitions\n        npartitions = self.new_partitions\n", "vf.contracts.repartition:FewerBoundaries", None),
